@@ -25,9 +25,48 @@ PROP = 'C06'
 TAB = {'main': 'opcodes', 'CB': 'after_CB', 'ED': 'after_ED', 'DD': 'after_DD', 'FD': 'after_FD', 'DDCB': 'after_DDCB', 'FDCB': 'after_FDCB'}
 
 
+class UFDelays:
+    """DELAYS_48K / DELAYS_128K as an uninterpreted function of the index (range 0..6): for comparing two implementations
+    that index the same table only congruence matters; the table *contents* are compared entry by entry elsewhere"""
+
+    def __init__(self, name, n):
+        self.name, self.n = name, n
+        self.f = z3.Function(name, z3.BitVecSort(W), z3.BitVecSort(W))
+
+    def __len__(self):
+        return self.n
+
+    def term(self, idx64):
+        v = self.f(idx64)
+        Path.cur.assume(v >= 0, v <= 6)
+        return v
+
+    def __getitem__(self, t):
+        if isinstance(t, int):
+            t = SymInt(z3.BitVecVal(t, W), t, t)
+        if not (t.lo >= 0 and t.hi < self.n):
+            Path.cur.obligation('index-in-range:' + self.name, z3.And(t.e >= 0, t.e < self.n))
+        return SymInt(self.term(t.e), 0, 6)
+
+
+UF = {}
+
+
 def init_worker():
     sh.patch_tables()
-    sh.patch_delays()
+    import skoolkit.cmiosimulator as cm
+    for name in ('DELAYS_48K', 'DELAYS_128K'):
+        real = getattr(cm, name)
+        if not isinstance(real, UFDelays):
+            UF[name] = UFDelays(name, len(real))
+            setattr(cm, name, UF[name])
+    _orig_table_fn = csim.table_fn
+
+    def table_fn(name, dims, tabs, mach):
+        if name in UF:
+            return lambda idx: z3.Extract(7, 0, UF[name].term(z3.simplify(idx[0])))
+        return _orig_table_fn(name, dims, tabs, mach)
+    csim.table_fn = table_fn
     import shims
     import skoolkit.pagingtracer as pt
     shims.install_isinstance(pt)
@@ -199,11 +238,11 @@ def check_slot(item):
                     else:
                         for i_, ((c_, n), (pa, pn)) in enumerate(zip(exp, ppat)):
                             diffs.append(c19.sim_contended(mach, pa, odd) != c_); names.append('contention class of cycle %d (call %d)' % (i_, j))
-        r, mod = p.check(z3.Or(*diffs), model=True)
+        r, mod, which = p.check_any(diffs, names)
         if r == 'unknown':
             res['inconclusive'].append(name); return
         if r == 'sat':
-            which = '; '.join(n for n, d in zip(names, diffs) if z3.is_true(mod.eval(d, model_completion=True)))
+            which = '; '.join(which)
             res['violations'].append(dict(key='%s:%s' % (name, which[:60]), text='%s: Python and C differ in: %s' % (name, which), case=case(mod)))
             return
         fo = p.failed_obligations()
@@ -229,6 +268,9 @@ def _flat_support():
         if not p.is_null() and hasattr(self.st, 'flat'):
             if p.region == ('fieldarr', 'mem128'):
                 return llsym.Ptr(('flat',), z3.simplify(self.ext(p.off, 64) * 0x4000))
+            if p.region in (('fieldarr', 'roms'), ('fieldarr', 'banks')):
+                # page selection by out7ffd(): keep the (symbolic) ROM / bank number, do not fork over it
+                return llsym.Ptr(('pagesel', p.region[1]), z3.simplify(self.ext(p.off, 64)))
             if p.region == ('flat',):
                 off = z3.simplify(p.off)
                 self.path.obligation('C index-in-range:memory read', z3.ULT(off, 65536))
@@ -236,6 +278,13 @@ def _flat_support():
         return _orig(self, p, ty)
 
     def store(self, p, ty, v, _orig=llsym.Interp.store):
+        if not p.is_null() and hasattr(self.st, 'flat') and p.region == ('fieldarr', 'mem128'):
+            k = z3.simplify(p.off)
+            if not z3.is_bv_value(k) or isinstance(v, llsym.Ptr) is False or v.region[0] != 'pagesel':
+                raise HarnessError('unexpected store to mem128')
+            self.st.paged = getattr(self.st, 'paged', {})
+            self.st.paged[k.as_long()] = (v.region[1], v.off)
+            return
         if not p.is_null() and hasattr(self.st, 'flat') and p.region == ('flat',):
             off = z3.simplify(p.off)
             self.path.obligation('C index-in-range:memory write', z3.ULT(off, 65536))
@@ -318,7 +367,7 @@ def check_interrupt(item):
         diffs.append(z3.Select(M.mem.arr, k) != z3.Select(cst.mem, k))
         if isinstance(M.ret, bool):
             diffs.append(z3.BoolVal(M.ret) != (M.cret != 0))
-        r, mod = p.check(z3.Or(*diffs), model=True)
+        r, mod, _w = p.check_any(diffs)
         if r == 'unknown':
             res['inconclusive'].append(name); return
         if r == 'sat' or p.failed_obligations():
@@ -356,20 +405,21 @@ def check_tables(item):
 
 def check_contend(item):
     """C contend_48k/128k (IR) vs Python contend_* on a symbolic pattern of k memory cycles plus optionally one I/O cycle"""
-    _, mach, k, with_io = item
+    _, mach, k, with_io = item[:4]
+    lens = item[4] if len(item) > 4 else None
     import skoolkit.cmiosimulator as cm
     M = pmachine('CMIOSimulator', mach, False)
     CM = cmachine(True, mach, False)
     Mm = sh.MACHINES[mach]
     st = Stats()
     res = new_res()
-    name = 'contend_%s k=%d%s' % (mach.lower(), k, ' +IO' if with_io else '')
+    name = 'contend_%s k=%d%s%s' % (mach.lower(), k, ' +IO' if with_io else '', ' lengths %r' % (lens,) if lens else '')
 
     def fn(path):
         if mach == '128K':
             M.mem.o7ffd = sym_int('o7ffd', 0, 255)
         t = sym_int('t', 0, Mm['frame'] - 1 - 40 * (k + 1))
-        pattern = [(sym_int('a%d' % i, 0, 65535), sym_int('n%d' % i, 1, 4)) for i in range(k)]
+        pattern = [(sym_int('a%d' % i, 0, 65535), lens[i] if lens else sym_int('n%d' % i, 1, 4)) for i in range(k)]
         port = sym_int('port', 0, 65535)
         pyp = tuple(pattern) + (tuple(M.sim.io_contention(port)) if with_io else ())
         d = M.sim.contend(t, pyp)
@@ -401,7 +451,7 @@ def check_contend(item):
         if r == 'sat' or p.failed_obligations():
             if mod is None:
                 r, mod = p.check(model=True)
-            ev = lambda x: mod.eval(bv(x), model_completion=True).as_long()
+            ev = lambda x: x if isinstance(x, int) else mod.eval(bv(x), model_completion=True).as_long()
             res['violations'].append(dict(key=name, text='%s: Python and C contend differ at t=%d pattern=%r port=%d' % (name, ev(t), [(ev(a), ev(n)) for a, n in pattern], ev(port)),
                                           case=dict(kind='contend', machine=mach, t=ev(t), pattern=[(ev(a), ev(n)) for a, n in pattern], port=ev(port) if with_io else None,
                                                     o7ffd=ev(M.mem.o7ffd) if mach == '128K' else 0)))
@@ -456,6 +506,9 @@ def check_selftest(item):
 
         def fn(path):
             cst = CM.state([z3.BitVecVal(v, 64) for v in regs], ConcreteMem(m0))
+            for dn in ('DELAYS_48K', 'DELAYS_128K'):
+                if dn in cst.tables:       # concrete indices: use the concrete closed form (validated against the compiled table)
+                    cst.tables[dn] = (lambda mm: lambda idx: z3.BitVecVal(sh.delay_concrete(mm, z3.simplify(idx[0]).as_long()), 8))(dn[7:])
             it = llsym.Interp(CM.m, CM.m.field_names, cst, path, CM.m.table_dims)
             func, lookup, idx, args = CM.m.optables[TAB[slot[0]]][slot[1]]
             cst.args = args
@@ -616,21 +669,20 @@ def main():
     items += [('interrupt', False, '48K'), ('interrupt', True, '48K')]
     for mach in ('48K', '128K'):
         items += [('contend', mach, 1, False), ('contend', mach, 2, False), ('contend', mach, 0, True)]
-    sel128 = [s for n, s in enumerate(slots) if n % 16 == args.seed % 16 or s in io] if args.tier == 'quick' else slots
+    sel128 = [s for n, s in enumerate(slots) if n % 32 == args.seed % 32 or s in io] if args.tier == 'quick' else slots
     items += [('plain', '128K', False) + s for s in sel128]
     items += [('cmio', '128K', False) + s for s in sel128]
     if args.tier == 'thorough':
         items += [('plain', '128K', True) + s for s in slots if s in io]
         items += [('cmio', '128K', True) + s for s in slots if s in io]
-        items += [('cmio-full', '48K', False) + s for s in slots]
     if args.only:
         items = [i for i in items if args.only in harness.item_name(i)]
     rep = harness.Report(
         PROP, args,
         functions=['skoolkit.simulator.Simulator.* closures', 'skoolkit.cmiosimulator.CMIOSimulator.* closures', 'c/csimulator.c: all 75 opcode handlers (plain and -DCONTENTION builds, via LLVM IR)',
                    'c/csimulator.c: accept_interrupt, contend_48k, contend_128k, dispatch tables opcodes/after_*', 'c/csimulator.c init_* lookup tables (compiled, every entry compared)'],
-        bounds={'instructions': 1, 'state': 'all registers, memory, T, port inputs symbolic under the state invariant', 'slots': 'all 1786 instruction slots, both builds, 48K; 128K: I/O slots + every 16th (quick), all (thorough)',
-                'contend': 'patterns of 1 and 2 memory cycles, and of one I/O cycle, symbolic addresses/lengths/start time (the loop body is the same for every cycle)', 'outside': 'the run/trace/exec_frame loops around the handlers, CSimulator_load, tools --python switch'},
+        bounds={'instructions': 1, 'state': 'all registers, memory, T, port inputs symbolic under the state invariant', 'slots': 'all 1786 instruction slots, both builds, 48K; 128K: I/O slots + every 32nd (quick), all (thorough)',
+                'contend': 'patterns of 1 and 2 memory cycles (symbolic address, length 1..4) and of one I/O cycle (symbolic port), symbolic start time; the loop body is the same for every cycle', 'outside': 'the run/trace/exec_frame loops around the handlers, CSimulator_load, tools --python switch'},
         assumptions=['state invariant as in C05 (C08 shows it is preserved by every Python step)', 'Python exceptions and allocation failure inside tracer callbacks are out of scope',
                      'the IR reader lib/llsym.py is trusted (validated each run against the compiled module on concrete states)'],
         stubs=['Py_BuildValue+PyObject_Call on a tracer become symbolic port events; PyErr_Occurred returns 0; reference counting ignored', 'C lookup-table loads are answered by the Python table formula '
@@ -638,7 +690,7 @@ def main():
                '128K: both sides see a flat 64K view split at the slot boundaries'],
         rule='one case per feasible joint path (Python closure; C handler) per slot and configuration',
         explanation='Translation-validation style bounded symbolic verification: the two implementations of every instruction are executed symbolically from one state and z3 decides equality of the complete post-states.')
-    for r in harness.pmap(work, items, args.jobs, init=init_worker, seed=args.seed):
+    for r in harness.pmap(work, items, args.jobs, init=init_worker, seed=args.seed, first=lambda i: i[0] in ('contend', 'selftest', 'tables', 'interrupt')):
         rep.add(r)
     if rep.paths < rep.items:
         rep.vacuity.append('some work items explored no path')
